@@ -14,6 +14,13 @@
 //! protocol (image table keyed by id, placements keyed by (image id, placement id) with
 //! `p=0`/absent = unspecified, `a=d,d=i` with and without `p`, error response = the data of
 //! that id is gone).
+//!
+//! Fault class: any event of the history may be issued with a writer that accepts a generated
+//! number of bytes and then fails with an `io::Error` (a terminal that went away, a full pipe);
+//! the history continues on a healthy writer.  Nothing is demanded of the failed call itself;
+//! what it emitted is only *observed* (was a transmission cut? did a complete transmission go
+//! into the failed writer?) so that the model knows what the terminal certainly does not hold
+//! and what it may hold.  Every later call is checked as always.
 
 use crate::engine::*;
 use proptest::prelude::*;
@@ -125,6 +132,109 @@ pub enum Ev {
         placement: Option<u64>,
         error: bool,
     },
+    /// the wrapped event, issued with a writer that accepts everything up to the end of the
+    /// `after_st`-th complete command (string terminator `ESC \`) it is given, then `room` more
+    /// bytes, and then fails every further write (`kind`: 0 BrokenPipe, 1 WouldBlock, 2 Other,
+    /// 3 `Ok(0)`); the next event of the history gets a healthy writer again
+    Failing {
+        ev: Box<Ev>,
+        room: usize,
+        kind: u8,
+        #[serde(default)]
+        after_st: u8,
+    },
+}
+
+#[derive(Clone, Copy, Debug)]
+struct Fault {
+    after_st: u8,
+    room: usize,
+    kind: u8,
+}
+
+impl Ev {
+    /// the event itself and the fault of its writer, if any (of nested faults the outermost)
+    fn peel(&self) -> (&Ev, Option<Fault>) {
+        let mut ev = self;
+        let mut fault = None;
+        while let Ev::Failing { ev: inner, room, kind, after_st } = ev {
+            fault = fault.or(Some(Fault { after_st: *after_st, room: *room, kind: *kind }));
+            ev = inner;
+        }
+        (ev, fault)
+    }
+}
+
+/// The writer handed to the handler: unlimited (`room == usize::MAX`, behaves like a `Vec`) or
+/// accepting `skip_st` complete commands and `room` bytes more -- the last write possibly in
+/// part, as `io::Write::write` may -- and failing from then on.  `Interrupted` is not among the
+/// errors (`write_all` must retry it).
+struct Sink {
+    data: Vec<u8>,
+    skip_st: u8,
+    room: usize,
+    kind: u8,
+    /// a write was refused
+    failed: bool,
+}
+
+impl Sink {
+    fn new(fault: Option<Fault>) -> Self {
+        let f = fault.unwrap_or(Fault { after_st: 0, room: usize::MAX, kind: 0 });
+        Sink {
+            data: Vec::new(),
+            skip_st: f.after_st,
+            room: f.room,
+            kind: f.kind,
+            failed: false,
+        }
+    }
+}
+
+impl std::io::Write for Sink {
+    fn write(&mut self, buf: &[u8]) -> std::io::Result<usize> {
+        use std::io::{Error, ErrorKind};
+        if buf.is_empty() {
+            return Ok(0);
+        }
+        if self.skip_st > 0 {
+            // unlimited up to the end of the `skip_st`-th command (a write that goes beyond
+            // it is accepted in part)
+            for (i, b) in buf.iter().enumerate() {
+                let esc_before = match i {
+                    0 => self.data.last() == Some(&0x1b),
+                    _ => buf[i - 1] == 0x1b,
+                };
+                if *b == b'\\' && esc_before {
+                    self.skip_st -= 1;
+                    if self.skip_st == 0 {
+                        self.data.extend_from_slice(&buf[..=i]);
+                        return Ok(i + 1);
+                    }
+                }
+            }
+            self.data.extend_from_slice(buf);
+            return Ok(buf.len());
+        }
+        if self.room == 0 {
+            self.failed = true;
+            return match self.kind % 4 {
+                0 => Err(ErrorKind::BrokenPipe.into()),
+                1 => Err(ErrorKind::WouldBlock.into()),
+                2 => Err(Error::new(ErrorKind::Other, "the terminal went away")),
+                _ => Ok(0),
+            };
+        }
+        let n = buf.len().min(self.room);
+        if self.room != usize::MAX {
+            self.room -= n;
+        }
+        self.data.extend_from_slice(&buf[..n]);
+        Ok(n)
+    }
+    fn flush(&mut self) -> std::io::Result<()> {
+        Ok(())
+    }
 }
 
 #[derive(Clone, Debug, Serialize, Deserialize)]
@@ -330,8 +440,17 @@ fn show(bytes: &[u8]) -> String {
 
 fn tokenize(out: &[u8]) -> Result<Vec<Tok<'_>>, Fail> {
     let mut toks = Vec::new();
+    let mut done = 0;
+    scan(out, &mut toks, &mut done)?;
+    Ok(toks)
+}
+
+/// Tokenises `out`; `done` is the offset behind the last complete sequence (on an error: the
+/// offset at which the offending sequence starts, `toks` holds everything before it).
+fn scan<'a>(out: &'a [u8], toks: &mut Vec<Tok<'a>>, done: &mut usize) -> Result<(), Fail> {
     let mut i = 0;
     while i < out.len() {
+        *done = i;
         ensure!(
             out[i] == 0x1b && i + 1 < out.len(),
             "syntax/stray-bytes",
@@ -440,7 +559,8 @@ fn tokenize(out: &[u8]) -> Result<Vec<Tok<'_>>, Fail> {
             }
         }
     }
-    Ok(toks)
+    *done = out.len();
+    Ok(())
 }
 
 /// RFC 4648 §4 base64 with mandatory padding
@@ -634,6 +754,16 @@ struct Model {
     puts_of: BTreeMap<u64, Vec<u64>>,
     /// (id, placement id) -> cell of the last Draw that used it
     pos_of_put: BTreeMap<(u64, u64), (usize, usize)>,
+    // calls whose writer failed
+    /// id -> content whose transmission went *completely* into a writer that failed later in
+    /// the same call: the terminal may or may not hold it (every write of the transmission
+    /// returned Ok, so the handler may rely on it; nobody promised that the bytes arrived)
+    maybe: BTreeMap<u64, usize>,
+    /// contents the terminal did not hold when a call that would have transmitted them lost
+    /// its writer before the transmission was complete: certainly still not held
+    cut_keys: BTreeSet<usize>,
+    /// some call of the history so far lost its writer inside a transmission
+    cut_seen: bool,
     // per event
     ev_puts: usize,
     ev_deleted: BTreeSet<usize>,
@@ -898,7 +1028,103 @@ impl Run {
         Ok(())
     }
 
+    /// A call whose writer failed.  `out` is what the writer had accepted before.  Nothing is
+    /// checked here: the output is a torn prefix and the statement speaks about what a draw
+    /// emits, not about what an aborted one managed to emit.  The prefix is only observed:
+    ///  * a transmission that did not get to its last chunk was received by nobody as an image:
+    ///    the terminal certainly still lacks that content (`cut_keys`);
+    ///  * a transmission that is complete in the prefix may have arrived (`maybe`): the handler
+    ///    may later place that image without sending it again, or send it again;
+    ///  * placements / deletions in the prefix are not applied to the model (the checks on later
+    ///    erases are about which placement a command addresses and do not depend on them).
+    fn lost(&mut self, out: &[u8], ctx: Ctx) {
+        let mut toks = Vec::new();
+        let mut done = 0;
+        let _ = scan(out, &mut toks, &mut done);
+        let tail = &out[done..];
+        let draw_key = match ctx {
+            Ctx::Draw { key, .. } => Some(key),
+            _ => None,
+        };
+        let header = |run: &Run, control: &[u8]| -> Option<(u8, u64, Option<usize>, bool)> {
+            let cmd = Cmd::parse(control).ok()?;
+            let id = cmd.num(b'i').filter(|i| (1..=MAX_ID).contains(i))? as u64;
+            let key = draw_key.or_else(|| run.m.content_of_id.get(&id).copied());
+            Some((cmd.ch(b'a').unwrap_or(b't'), id, key, cmd.num(b'm').unwrap_or(0) == 1))
+        };
+        let mut open: Option<(u64, Option<usize>)> = None;
+        let mut complete: Vec<(u64, Option<usize>)> = Vec::new();
+        for tok in &toks {
+            let Tok::Gfx { control, .. } = tok else { continue };
+            if let Some(tx) = open {
+                // continuation chunk
+                match Cmd::parse(control) {
+                    Ok(cmd) if cmd.num(b'm').unwrap_or(0) == 1 => {}
+                    Ok(_) => {
+                        complete.push(tx);
+                        open = None;
+                    }
+                    Err(_) => break,
+                }
+                continue;
+            }
+            match header(self, control) {
+                Some((b't' | b'T', id, key, more)) => {
+                    if let (Some(key), true) = (key, draw_key.is_some()) {
+                        self.m.id_of.insert(key, id);
+                        self.m.content_of_id.entry(id).or_insert(key);
+                    }
+                    if more {
+                        open = Some((id, key));
+                    } else {
+                        complete.push((id, key));
+                    }
+                }
+                Some((b'p', id, Some(key), _)) if draw_key.is_some() => {
+                    self.m.id_of.insert(key, id);
+                    self.m.content_of_id.entry(id).or_insert(key);
+                }
+                _ => {}
+            }
+        }
+        // the writer failed inside a command: if its control data went out, it names the image
+        if open.is_none() && tail.starts_with(b"\x1b_G") {
+            if let Some(k) = tail.iter().position(|b| *b == b';') {
+                if let Some((b't' | b'T', id, key, _)) = header(self, &tail[3..k]) {
+                    open = Some((id, key));
+                }
+            }
+        }
+        for (id, key) in &complete {
+            if let Some(key) = key {
+                if !self.m.images.contains_key(id) {
+                    self.m.maybe.insert(*id, *key);
+                    self.label("fault:complete-transmission-into-the-failed-writer");
+                }
+            }
+        }
+        let maybe_keys: BTreeSet<usize> = self.m.maybe.values().copied().collect();
+        let cut = |run: &mut Run, key: usize| {
+            if !run.content_empty(key) && !run.m.live_tx.contains_key(&key) && !maybe_keys.contains(&key) {
+                run.m.cut_keys.insert(key);
+            }
+        };
+        if let Some((_, key)) = open {
+            self.m.cut_seen = true;
+            self.label("fault:transmission-cut");
+            if let Some(key) = key {
+                cut(self, key);
+            }
+        }
+        if let Some(key) = draw_key {
+            // a draw that was lost before or inside the transmission of a content the terminal
+            // does not hold leaves the terminal without it
+            cut(self, key);
+        }
+    }
+
     fn drop_image(&mut self, id: u64) {
+        self.m.maybe.remove(&id);
         self.m.images.remove(&id);
         self.m.placements.retain(|p| p.img != id);
         self.m.live_tx.retain(|_, v| *v != id);
@@ -1018,6 +1244,17 @@ impl Run {
         self.m.content_of_id.insert(id, key);
         self.m.id_of.insert(key, id);
         self.m.ev_transmits += 1;
+        self.m.maybe.remove(&id);
+        let was_cut = self.m.cut_keys.remove(&key);
+        if self.m.cut_seen {
+            // a complete, exact transmission although an earlier one was torn by its writer
+            self.label(if was_cut {
+                "fault:transmission-after-a-cut-one/same-content"
+            } else {
+                "fault:transmission-after-a-cut-one/other-content"
+            });
+            self.nontrivial = true;
+        }
         // labels
         let chunks = p.chunks;
         self.label(match chunks {
@@ -1058,7 +1295,33 @@ impl Run {
                 self.m.pos_of_put.insert((id, pid), pos);
             }
         }
+        if !self.m.images.contains_key(&id) {
+            if let Some(key) = self.m.maybe.remove(&id) {
+                // every byte of this image's transmission was accepted by the writer of an
+                // earlier call (which failed later on): the handler may rely on it
+                self.m.images.insert(id, key);
+                self.m.live_tx.insert(key, id);
+                self.m.content_of_id.insert(id, key);
+                self.m.cut_keys.remove(&key);
+                self.label("fault:placement-relies-on-transmission-into-the-failed-writer");
+            }
+        }
         let Some(stored) = self.m.images.get(&id).copied() else {
+            let about = match ctx {
+                Ctx::Draw { key, .. } => Some(key),
+                _ => self.m.content_of_id.get(&id).copied(),
+            };
+            if about.map(|k| self.m.cut_keys.contains(&k)).unwrap_or(false) {
+                // "every placement refers to a transmitted image": a transmission that lost its
+                // writer before the last chunk transmitted nothing
+                return Err(Fail::new(
+                    "put/untransmitted-image/transmission-cut-by-writer-error",
+                    format!(
+                        "event #{ev} ({}): a=p,i={id},p={pid} refers to an image whose only transmission on this handler was torn by a failing writer before its last chunk was written, and which was not transmitted again on a healthy writer",
+                        ctx.name()
+                    ),
+                ));
+            }
             let empty = match ctx {
                 Ctx::Draw { key, .. } => self.content_empty(key),
                 _ => self
@@ -1305,7 +1568,7 @@ pub fn check_case(case: &Case) -> Outcome {
         // two different contents with the same bytes (different shape) drawn on one handler
         let mut by_bytes: BTreeMap<&[u8], BTreeSet<usize>> = BTreeMap::new();
         for ev in &case.evs {
-            if let Ev::Draw { img, .. } = ev {
+            if let Ev::Draw { img, .. } = ev.peel().0 {
                 let k = img_key[(*img).min(images.len() - 1)];
                 if !run.table[k].2.is_empty() {
                     by_bytes.entry(&run.table[k].2).or_default().insert(k);
@@ -1321,8 +1584,10 @@ pub fn check_case(case: &Case) -> Outcome {
 
     for (evno, ev) in case.evs.iter().enumerate() {
         run.evno = evno;
-        let mut out: Vec<u8> = Vec::new();
+        let (ev, fault) = ev.peel();
+        let mut sink = Sink::new(fault);
         match ev {
+            Ev::Failing { .. } => unreachable!(),
             Ev::Draw { img, pos } => {
                 let ii = (*img).min(images.len() - 1);
                 let pos = case.poss[(*pos).min(case.poss.len() - 1)];
@@ -1330,17 +1595,23 @@ pub fn check_case(case: &Case) -> Outcome {
                 let key = img_key[ii];
                 let image = &images[ii];
                 let was_live = run.m.live_tx.contains_key(&key);
-                guard_val(|| {
+                let res = guard_val(|| {
                     handler.draw(
-                        &mut out,
+                        &mut sink,
                         image,
                         Position {
                             row: pos.0,
                             col: pos.1,
                         },
                     )
-                })?
-                .map_err(|e| Fail::new("draw/error", format!("event #{evno}: draw returned {e:?}")))?;
+                })?;
+                if sink.failed {
+                    run.lost(&sink.data, Ctx::Draw { key, pos });
+                    run.label("fault:draw-writer-failed");
+                    continue;
+                }
+                res.map_err(|e| Fail::new("draw/error", format!("event #{evno}: draw returned {e:?}")))?;
+                let out = std::mem::take(&mut sink.data);
                 run.exec(&out, Ctx::Draw { key, pos })?;
                 let empty = run.content_empty(key);
                 ensure!(
@@ -1391,14 +1662,20 @@ pub fn check_case(case: &Case) -> Outcome {
                 let pos = pos.map(|p| case.poss[p.min(case.poss.len() - 1)]);
                 let before: Vec<Placement> = run.m.placements.clone();
                 let image = &images[ii];
-                guard_val(|| {
+                let res = guard_val(|| {
                     handler.erase(
-                        &mut out,
+                        &mut sink,
                         image,
                         pos.map(|p| Position { row: p.0, col: p.1 }),
                     )
-                })?
-                .map_err(|e| Fail::new("erase/error", format!("event #{evno}: erase returned {e:?}")))?;
+                })?;
+                if sink.failed {
+                    run.lost(&sink.data, Ctx::Erase);
+                    run.label("fault:erase-writer-failed");
+                    continue;
+                }
+                res.map_err(|e| Fail::new("erase/error", format!("event #{evno}: erase returned {e:?}")))?;
+                let out = std::mem::take(&mut sink.data);
                 run.exec(&out, Ctx::Erase)?;
                 match pos {
                     None => run.label("ev:erase-all"),
@@ -1522,9 +1799,15 @@ pub fn check_case(case: &Case) -> Outcome {
                     placement,
                     error: error.then(|| "ENOENT:Put command refers to non-existent image".to_string()),
                 };
-                guard_val(|| handler.handle(&mut out, &event))?
-                    .map_err(|e| Fail::new("handle/error", format!("event #{evno}: handle returned {e:?}")))?;
+                let res = guard_val(|| handler.handle(&mut sink, &event))?;
                 let about = placement.filter(|p| run.m.pos_of_put.contains_key(&(id, *p)));
+                if sink.failed {
+                    run.lost(&sink.data, Ctx::Resp { about });
+                    run.label("fault:response-writer-failed");
+                    continue;
+                }
+                res.map_err(|e| Fail::new("handle/error", format!("event #{evno}: handle returned {e:?}")))?;
+                let out = std::mem::take(&mut sink.data);
                 run.exec(&out, Ctx::Resp { about })?;
                 run.label(match (error, known) {
                     (true, true) => "ev:resp-error-known-id",
@@ -1535,6 +1818,10 @@ pub fn check_case(case: &Case) -> Outcome {
                     run.nontrivial = true;
                 }
             }
+        }
+        if fault.is_some() {
+            // the output fitted into the limited writer: an ordinary call
+            run.label("fault:writer-limit-not-reached");
         }
     }
     if let Some(f) = run.deferred {
@@ -1657,6 +1944,28 @@ fn ev_strategy(n_img: usize, n_pos: usize) -> BoxedStrategy<Ev> {
     .boxed()
 }
 
+/// writer fault of one event: (bytes accepted before the writer fails, kind of failure).
+/// A transmission is 40-odd bytes of control data + up to 4096 payload bytes per chunk, the
+/// other commands are 20-50 bytes: the limits fall before the first byte, inside the control
+/// data, inside the first / a later chunk, in the placement command behind the last chunk.
+fn fault_strategy() -> BoxedStrategy<Fault> {
+    (
+        prop_oneof![
+            // absolute
+            1 => (Just(0u8), Just(0usize)),
+            2 => (Just(0u8), 1usize..64),
+            3 => (Just(0u8), 64usize..4200),
+            2 => (Just(0u8), 4200usize..13000),
+            // behind the k-th command of the call (= chunk of a transmission, mostly): right
+            // at the boundary, inside the control data of the next command, inside its payload
+            3 => (1u8..=3, prop_oneof![2 => Just(0usize), 3 => 1usize..48, 1 => 48usize..4200]),
+        ],
+        0u8..4,
+    )
+        .prop_map(|((after_st, room), kind)| Fault { after_st, room, kind })
+        .boxed()
+}
+
 impl Property for C11 {
     type Case = Case;
 
@@ -1686,9 +1995,26 @@ impl Property for C11 {
                     proptest::bool::weighted(0.3),
                     any::<bool>(),
                     proptest::bool::weighted(0.4),
+                    // histories with failing writers: 30% of the cases, there every event
+                    // with probability 1/4
+                    proptest::option::weighted(
+                        0.3,
+                        proptest::collection::vec(proptest::option::weighted(0.25, fault_strategy()), 15),
+                    ),
                 )
             })
-            .prop_map(|(quiet, mut contents, imgs, poss, evs, tweak, shared_backing, late_windows, full_width)| {
+            .prop_map(|(quiet, mut contents, imgs, poss, evs, tweak, shared_backing, late_windows, full_width, faults)| {
+                let evs: Vec<Ev> = match faults {
+                    None => evs,
+                    Some(faults) => evs
+                        .into_iter()
+                        .zip(faults)
+                        .map(|(ev, fault)| match fault {
+                            Some(f) => Ev::Failing { ev: Box::new(ev), room: f.room, kind: f.kind, after_st: f.after_st },
+                            None => ev,
+                        })
+                        .collect(),
+                };
                 // contents that random pixels cannot reach (found once by an offline search
                 // over the 64-bit FNV content hash reduced mod 2^32-1)
                 let last = contents.len() - 1;
@@ -1742,7 +2068,22 @@ impl Property for C11 {
         // their own signature class so that the design limit can be listed as a known finding
         // without hiding the same failure anywhere else.
         let corner = case.poss.iter().any(|p| *p == (65535, 65535));
-        match check_case(case) {
+        let limited: Vec<String> = case
+            .evs
+            .iter()
+            .enumerate()
+            .filter_map(|(i, ev)| {
+                ev.peel().1.map(|f| format!("#{i} after {} commands + {} bytes (kind {})", f.after_st, f.room, f.kind % 4))
+            })
+            .collect();
+        let result = check_case(case).map_err(|f| {
+            if limited.is_empty() {
+                f
+            } else {
+                Fail::new(f.sig, format!("{} [events issued with a writer that fails: {}]", f.msg, limited.join(", ")))
+            }
+        });
+        match result {
             Err(f)
                 if corner
                     && (f.sig.starts_with("redraw/") || f.sig.starts_with("erase/"))
@@ -1760,9 +2101,10 @@ impl Property for C11 {
     }
 
     fn rule(&self) -> String {
-        "generated: 1-3 image contents (sizes 0x0..48x48 incl. empty, 1x1 and sizes whose base64 payload is 4096k-4, 4096k, 4096k+4 bytes for k=1,2,3; solid / explicit / 00-FF / byte-ramp / noise pixels; rarely also a 1x1 content that hashes to image id 0 / a pair of 1x1 contents with equal image id / the same bytes in another shape) realised as 1-4 Images (owned, Image::new, crop, view, strided + column-major from_parts, transposed; several Images may share a content with different Arcs; in 30% of the cases all non-empty images are windows cropped out of one backing Image object, in half of those only after that picture has itself been drawn on the handler, in 40% of them as full-width row ranges of the picture; contents of equal shape and different pixels are forced in 10% of the cases), 1-3 positions below 65536 biased to (0,0), row 0, column 0 and 65535, and a history of 1-15 events Draw / Erase(at|all) / response(OK|error, for a drawn image with a placement id the handler used, or arbitrary numbers) on one KittyImageHandler (plain or quiet). \
+        "generated: 1-3 image contents (sizes 0x0..48x48 incl. empty, 1x1 and sizes whose base64 payload is 4096k-4, 4096k, 4096k+4 bytes for k=1,2,3; solid / explicit / 00-FF / byte-ramp / noise pixels; rarely also a 1x1 content that hashes to image id 0 / a pair of 1x1 contents with equal image id / the same bytes in another shape) realised as 1-4 Images (owned, Image::new, crop, view, strided + column-major from_parts, transposed; several Images may share a content with different Arcs; in 30% of the cases all non-empty images are windows cropped out of one backing Image object, in half of those only after that picture has itself been drawn on the handler, in 40% of them as full-width row ranges of the picture; contents of equal shape and different pixels are forced in 10% of the cases), 1-3 positions below 65536 biased to (0,0), row 0, column 0 and 65535, and a history of 1-15 events Draw / Erase(at|all) / response(OK|error, for a drawn image with a placement id the handler used, or arbitrary numbers) on one KittyImageHandler (plain or quiet); in 30% of the cases every event (draw, erase, response) is with probability 1/4 issued with a writer that accepts 0 / 1-63 / 64-4199 / 4200-12999 bytes, or its first 1-3 complete commands and 0 / 1-47 / 48-4199 bytes more (the last write possibly in part), and then fails every write with BrokenPipe / WouldBlock / Other / Ok(0), after which the history continues on a healthy writer. \
          Every output is scanned (APC, ESC 7/8, CUP), every graphics command is parsed and executed on a kitty reference model; checked: key syntax, id range, chunk length <=4096 and multiple of 4, m flags, continuation chunks carry only m/q, RFC 4648 decode = w*h*4 bytes = row-major RGBA, s/v = image size, f=32, content transmitted at most once unless an error response invalidated its id, every a=p names an id whose data the terminal holds and whose data is the drawn image, draw of a non-empty image creates a placement, placements re-created in answer to an error response carry the placement id the response named and sit at the cell of the original draw, erase-at deletes exactly the placements made by drawing that content at that cell (p=0/absent = all placements of the image). \
-         non-trivial = a draw served from the transmit cache, or an erase-at with sibling placements of the same image, or an error response for an id the handler used".into()
+         A call whose writer failed is not judged (result, emitted prefix); its accepted bytes are only observed: a transmission that did not reach its last chunk transmitted nothing, so every later call is held to the same rules with the terminal not holding that image (a later transmission -- of this or any other image -- must again be one exact, well-formed payload of its own image; a later a=p for the torn image without a new complete transmission = put/untransmitted-image/transmission-cut-by-writer-error); a transmission that went completely into the failed writer may or may not have arrived: placing that image later and transmitting it again are both accepted. \
+         non-trivial = a draw served from the transmit cache, or an erase-at with sibling placements of the same image, or an error response for an id the handler used, or a complete transmission after an earlier one was torn by a failing writer".into()
     }
 
     fn assumptions(&self) -> Vec<String> {
@@ -1772,6 +2114,7 @@ impl Property for C11 {
             "draw(img, pos) is called with the cursor at pos (documented contract of ImageHandler::draw), so the placement it creates is 'the placement at pos'".into(),
             "Erase(img, None) and OK responses are exercised but only the general command checks apply to them (the statement speaks about erasing at a position)".into(),
             "continuation chunks may carry only m and q (kitty specification); a repeated key takes the last value".into(),
+            "failing writers: the bytes a writer accepted before it failed are treated as received by nobody as far as incomplete commands are concerned (no resynchronisation of a terminal left inside an APC string is modelled or demanded); complete commands in them may or may not have taken effect, the oracle accepts both; the result of the failed call and the bytes it emitted are not judged; io::ErrorKind::Interrupted is not generated (write_all retries it by contract); a failed handle() call leaves q=2 on later commands in the unchanged library, which the statement does not speak about (q is only range-checked)".into(),
             "the identifiers the handler uses are opaque to the oracle (learned from the output); contents whose 64-bit content hash reduces to image id 0, or to the id of another content, cannot be reached by random pixels: one such 1x1 content and one such pair (found by an offline search) are injected into about 4% of the cases".into(),
         ]
     }
